@@ -250,11 +250,12 @@ def limit_cases(rng, tier, op='encode'):
     return cs
 
 
-def adjacent_capacity_cases(rng, tier, op='encode'):
+def adjacent_capacity_cases(rng, tier, op='encode', pre=0):
     """symbol lists in which two capacities differ by one or two codewords (43/44, 62/63, 63/64 with the DMRE sizes, 3/5, 8/10 ...):
     runs of every scheme that end exactly at, one before and one after the smaller capacity, with the two symbols alone and with
     all 48 sizes listed -- where 'space left in the current symbol' and 'space left once the symbol has grown' differ by one and
-    the end-of-data rules of encoder and planner must query the same size.  Deterministic up to the choice of characters."""
+    the end-of-data rules of encoder and planner must query the same size.  `pre`: codewords written before the run (a macro or
+    FNC1 codeword).  Deterministic up to the choice of characters."""
     cs = []
     cp = caps()
     pairs = [(i, j) for i in range(48) for j in range(48) if 0 < cp[j] - cp[i] <= 2]
@@ -263,7 +264,7 @@ def adjacent_capacity_cases(rng, tier, op='encode'):
         c = cp[i]
         for kind, (per, m) in sorted(kinds.items()):
             for delta in (-2, -1, 0, 1, 2):
-                L = int((c - (0 if kind == 'digits' else 1)) * per) + delta
+                L = int((c - pre - (0 if kind == 'digits' else 1)) * per) + delta
                 if L <= 0:
                     continue
                 d = [rng.choice(ALPH[kind]) for _ in range(L)]
